@@ -248,6 +248,12 @@ def rule_sources(prog, rep):
             continue
         used = set(x.get("name") for b in bodies for x in walk(b) if x.get("k") == "field") & COLLECTIONS
         whole = [callee_path(x) for b in bodies for x in walk(b) if x.get("k") in ("call", "mcall") and re.search(r"Implementers::iter$", callee_path(x) or "")]
+        # a data-bearing (field, kind) pair never answers null: an empty collection is an empty list
+        nulls = [x for b in bodies for x in walk(b) if x.get("k") in ("call", "mcall") and re.search(r"ResolvedValue::<'a>::null$|ResolvedValue::null$", callee_path(x) or "")]
+        if field == "possibleTypes" or len(bodies) == 1 and bodies[0] is not arm["body"]:
+            if nulls:
+                rep.finding("C24.SOURCES", f.name, "null:%s:%s" % (field, kind),
+                            "__Type.%s of a %s type can answer null (a `ResolvedValue::null()` inside the arm for that kind); the reference implementation answers a list, empty if there is nothing to list" % (field, kind), f.loc(arm.get("l")))
         ok = used == {want} and not whole
         rep.obligation(ok)
         if ok:
